@@ -37,8 +37,8 @@ def run(c, props, spec, meta_spec=None):
         runs.append(("replay", ["run", "-replay", c.replay]))
     else:
         runs.append(("corpus", ["corpus", "-corpus", corpus]))
-        runs.append(("dfs", ["dfs", "-n", "2100" if quick else "40000", "-preempt", "1" if quick else "2"]))
-        runs.append(("random", ["run", "-n", "400" if quick else "8000"]))
+        runs.append(("dfs", ["dfs", "-n", "100000" if quick else "3000000", "-preempt", "1" if quick else "2"]))
+        runs.append(("random", ["run", "-n", "600" if quick else "8000"]))
     for name, args in runs:
         out = c.harness("sched", args, timeout=900 if quick else 3000)
         if not out:
@@ -46,6 +46,19 @@ def run(c, props, spec, meta_spec=None):
         for n in out.get("notes") or []:
             c.broken.append({"kind": "scheduler-stall", "what": n})
         c.cases(name, out, IMPORTS, "scase", corr=["corr_ok"], spec=spec, premise=["premise_ok"])
+    if c.broken and not c.violations and not c.replay:
+        # 1. local search around the schedules on which model and implementation differ
+        firsts = [b.get("first_case") for b in c.broken if b.get("kind") == "correspondence" and b.get("first_case") and "sched" in (b.get("first_case") or {})]
+        if firsts:
+            import json
+            os.makedirs(os.path.join(vlib.BUILD, "out"), exist_ok=True)
+            ar = os.path.join(vlib.BUILD, "out", "%s-around.json" % c.prop)
+            json.dump({"cases": firsts[:4]}, open(ar, "w"))
+            keep = list(c.broken)
+            out = c.harness("sched", ["around", "-replay", ar, "-n", "3000"], timeout=900)
+            if out:
+                c.cases("around", out, IMPORTS, "scase", corr=[], spec=spec, premise=["premise_ok"])
+            c.broken = keep + [b for b in c.broken if b not in keep]
     if c.broken and not c.violations and not c.replay:
         out = c.harness("sched", ["run", "-n", "3000"], timeout=1800, env={"VERIF_SEED": str(c.seed + 7919)})
         if out:
